@@ -8,7 +8,7 @@ use crate::env::Env;
 use crate::eval::load_toplevel_items;
 use crate::garden_type::Type;
 use crate::parser::ast::{
-    Block, Expression, FunInfo, IdGenerator, LetDestination, Symbol, SyntaxId, TypeHint,
+    Block, Expression, Expression_, FunInfo, IdGenerator, LetDestination, Symbol, SyntaxId, TypeHint,
 };
 use crate::parser::parse_toplevel_items;
 use crate::parser::vfs::Vfs;
@@ -151,11 +151,48 @@ impl AnnotationFinder<'_> {
     /// The inferred return type of a function body: the type of its
     /// final expression, or `Unit` for an empty body.
     fn body_return_ty(&self, body: &Block) -> Option<Type> {
-        match body.exprs.last() {
-            Some(expr) => self.id_to_ty.get(&expr.id).cloned(),
-            None => Some(Type::unit()),
+        let ty = match body.exprs.last() {
+            Some(expr) => self.id_to_ty.get(&expr.id).cloned()?,
+            None => Type::unit(),
+        };
+
+        // The function may also return early. Only suggest a return
+        // type that every `return` in the body agrees with.
+        let mut finder = ReturnFinder::default();
+        finder.visit_block(body);
+        if finder.bare_return && !ty.is_unit() {
+            return None;
         }
+        for id in &finder.value_ids {
+            if self.id_to_ty.get(id) != Some(&ty) {
+                return None;
+            }
+        }
+
+        Some(ty)
     }
+}
+
+/// Collects the values of the `return` expressions of a function
+/// body, without descending into nested closures.
+#[derive(Default)]
+struct ReturnFinder {
+    value_ids: Vec<SyntaxId>,
+    bare_return: bool,
+}
+
+impl Visitor for ReturnFinder {
+    fn visit_expr(&mut self, expr: &Expression) {
+        if let Expression_::Return(value) = &expr.expr_ {
+            match value {
+                Some(value) => self.value_ids.push(value.id),
+                None => self.bare_return = true,
+            }
+        }
+        self.visit_expr_(&expr.expr_);
+    }
+
+    fn visit_expr_fun_literal(&mut self, _: &FunInfo) {}
 }
 
 impl Visitor for AnnotationFinder<'_> {
